@@ -1,5 +1,5 @@
 """C14 — parallel execution: lock-order graph (E5) and module bodies evaluated once (E6/R6a)."""
-from . import e5, c15
+from . import e5, c15, c05
 
 CRATES = {"gluon_vm", "gluon"}
 
@@ -20,3 +20,6 @@ def run(fb, rep, tier, cfg):
                         "tables/lock_instance_order.json: four reasoned instance orders of the thread tree"]
     e5.run(fb, rep)
     c15.r6a(fb, rep, R="R6a")
+    # the collector's walk over the thread tree is where parallel threads meet the GC (seed C14-3): while a parent collects it locks every
+    # descendant, marks from its roots and must sweep the heaps it marked in (or the mark bits go stale); shared with C05
+    c05.e1b(fb, rep)
